@@ -329,7 +329,7 @@ PROPS = {
         "assumptions": [
             "the payload over which a signature is made contains every transaction field, the chain id and the nonce / sequence (EIP-155/2930/1559 signing hashes; Cosmos SignDoc; EIP-712 typed data) — the single-field mutation sweep of the correspondence run probes exactly this on the real code",
         ],
-        "level_text": "Partial (cryptography assumed explicitly). Machine-checked (Lean 4): an Ethereum-route batch is accepted exactly when its nonces are seq, seq+1, …; an accepted transaction is refused at every later point; over every history of valid, duplicated, out-of-order and batched submissions the nonces executed are exactly consecutive, each once; executing the messages of an accepted transaction — calls and contract creations in any mix — leaves the sequence where the ante handler advanced it (with a kernel-checked counterexample for the code before 37d9750, where a creation moved it back and a later message of the same transaction could be executed twice); the Cosmos / EIP-712 routes accept only the current sequence; under Unforgeable no change of the signed payload is accepted for the original signer; kernel-checked over regenerated facts: the sequence decorator loads the account and compares the nonce for every message unconditionally, the signature decorator uses the chain's signer, refuses unprotected transactions and sets From from the recovered sender. Tied to the code by an exact differential run of real transactions through DeliverTx for all three routes, including every single-field mutation of all Ethereum transaction types with the signature kept.",
+        "level_text": "Partial (cryptography assumed explicitly). Machine-checked (Lean 4): an Ethereum-route batch is accepted exactly when its nonces are seq, seq+1, …; an accepted transaction is refused at every later point; over every history of valid, duplicated, out-of-order and batched submissions the nonces executed are exactly consecutive, each once; executing the messages of an accepted transaction — calls and contract creations in any mix — leaves the sequence where the ante handler advanced it (with a kernel-checked counterexample for the code before 37d9750, where a creation moved it back and a later message of the same transaction could be executed twice); the Cosmos / EIP-712 routes accept only the current sequence; under Unforgeable no change of the signed payload is accepted for the original signer, and the payload of each route binds every field of a transaction the route admits (the EIP-712 routes refuse what their typed data cannot carry: timeout height and extension options, and — since the repair — a fee granter; kernel-checked counterexample for the code before); kernel-checked over regenerated facts: the sequence decorator loads the account and compares the nonce for every message unconditionally, the signature decorator uses the chain's signer, refuses unprotected transactions and sets From from the recovered sender. Tied to the code by an exact differential run of real transactions through DeliverTx for all three routes, including every single-field mutation of all Ethereum transaction types with the signature kept.",
         "level_note": "Partial: replay logic proved and tied to the code; binding to content proved under an explicit unforgeability hypothesis and probed field by field on the real ante chains. Trusted: Lean kernel; extractor; harness; go-ethereum / SDK crypto.",
         "technique": "Lean 4 proofs of the sequence state machine (induction over histories) + binding theorem under an explicit unforgeability hypothesis + regenerated decorator-shape facts + differential correspondence on real signed transactions",
         "explanation": "Sequence machine proved; real DeliverTx on the application with batches of 1–3 Ethereum messages (consecutive, duplicated, skipped, reversed nonces), replays, every single-field mutation (12 fields × 3 transaction types) and foreign-chain signatures, Cosmos direct-mode and EIP-712 (both variants) transactions signed with current / future / past sequence and this / another chain id, tampered after signing in six ways, and replays.",
